@@ -397,3 +397,16 @@ for _u in _c17["UNITS"]:
         _u.template = "../C17/" + _u.template.replace("../C17/", "")
         UNITS.append(_u)
 META["trusted_base"] = list(META.get("trusted_base", [])) + ["units c17.backend(s).* are the C17 units of the same name (specs/C17/backends*.c) with their trusted base"]
+
+
+# ---- C10 unit reused (added after seeded change C02-9 was missed): the retry helper of a deferred wake-up is a STAGED task; it becomes
+# ---- runnable through thread_queue::wait_or_add_new (own-queue overload), which must convert own staged tasks however many pending ones exist
+_c10s = {"UNITS": [], "VX_NO_REUSE": True}
+if not globals().get("VX_NO_REUSE"):
+    exec(compile(open("/verif/specs/C10/spec.py").read(), "/verif/specs/C10/spec.py", "exec"), _c10s)
+for _u in _c10s["UNITS"]:
+    if _u.name in ("steal.tq.wait_or_add_new.self", "steal.tq.wait_or_add_new.from", "steal.lpq.wait_or_add_new"):
+        _u.name = "c10." + _u.name
+        _u.template = "../C10/" + _u.template.replace("../C10/", "")
+        UNITS.append(_u)
+META["trusted_base"] = list(META.get("trusted_base", [])) + ["units c10.steal.* are the C10 units of the same name (specs/C10/steal_tq.c, steal_lpq.c) with their trusted base"]
